@@ -28,7 +28,8 @@ EXPLANATION = (
     "present, only for events whose own type is a key; R8.7 the sequencing "
     "options are forwarded unchanged from the config to the recursion. "
     "These are necessary conditions of the documented sequencing rules; the "
-    "rules do not execute the sequencer.")
+    "rules do not execute the sequencer."
+    " Added: R8.8 prior-information grouping; R8.9 the end time is rendered as the UTC instant it denotes (shared with C16); R8.10 every well-formed trace of a stream is sequenced (per-trace skip, no stale re-yield).")
 NOT_DECIDED = ["tie handling for equal start times (excluded by the "
                "quantifier)", "exactness of the timestamp string (C16)"]
 ASSUMPTIONS = ["sibling start times are distinct (property quantifier)"]
